@@ -372,6 +372,30 @@ pub fn run(ctx: &mut Ctx) {
             }
         }
     }
+    // long batches: one fragment repeated many times (accumulating hidden state), then every
+    // fragment once; and the whole catalogue cycled
+    for f in ALL_FMT {
+        let frs = fragments(f);
+        let reps = if ctx.thorough { 600 } else { 300 };
+        for (k, s) in &frs {
+            idx += 1;
+            if !ctx.mine(idx) {
+                continue;
+            }
+            let mut seq: Vec<String> = std::iter::repeat(s.clone()).take(reps).collect();
+            let mut names: Vec<String> = vec![format!("{} x{}", k, reps)];
+            for (k2, s2) in &frs {
+                seq.push(s2.clone());
+                names.push(k2.to_string());
+            }
+            check_seq(ctx, f, &seq, &names, "long-batches");
+        }
+        idx += 1;
+        if ctx.mine(idx) {
+            let seq: Vec<String> = (0..1000).map(|i| frs[i % frs.len()].1.clone()).collect();
+            check_seq(ctx, f, &seq, &["catalogue cycled x1000".to_string()], "long-batches");
+        }
+    }
     ctx.report.note("exhaustive_subspaces", J::Arr(vec![J::from("all ordered pairs of the fragment catalogue x 3 formats"), J::from("all triples over the 12-kind core x 3 formats")]));
     // random sequences n <= 12 mixing catalogue fragments, well-formed values and mutated strings
     let mut rng = ctx.rng(0xC08);
